@@ -96,6 +96,16 @@ where
         let fri_options = air.options().to_fri_options();
         let partition_options = air.options().partition_options();
 
+        // query positions are drawn from the LDE domain; the random coin requires their number to
+        // be smaller than the size of the domain
+        if air.options().num_queries() >= lde_domain_size {
+            return Err(VerifierError::ProofDeserializationError(format!(
+                "number of queries must be smaller than the LDE domain size {}, but was {}",
+                lde_domain_size,
+                air.options().num_queries()
+            )));
+        }
+
         // --- parse commitments ------------------------------------------------------------------
         let (trace_commitments, constraint_commitment, fri_commitments) = commitments
             .parse::<H>(num_trace_segments, fri_options.num_fri_layers(lde_domain_size))
